@@ -218,6 +218,18 @@ def apply_ref(r: RefAction, op: list, ishape_now) -> RefAction:
             out = out.concat(p, newdim)
         out.squeeze(newdim)
         return out
+    if name == "expand_coord":
+        _, newdim, internal, crit, axis = op
+        parts = []
+        for i, c in enumerate(crit):
+            p = r.map(lambda v, c=c: np.take(v, c, axis=internal))
+            p.add_dim(newdim, i, axis)
+            parts.append(p)
+        out = parts[0]
+        for p in parts[1:]:
+            out = out.concat(p, newdim)
+        out.squeeze(newdim)
+        return out
     if name == "isel":
         _, dim, idx = op
         return r.isel(dim, idx)
@@ -290,6 +302,9 @@ def apply_impl(a, op: list, r_before: RefAction):
         _, newdim, internal, size, axis, coordlabels = op
         d = (newdim, list(coordlabels)) if coordlabels else newdim
         return a.expand(d, internal, dim_size=size, axis=axis)
+    if name == "expand_coord":
+        _, newdim, internal, crit, axis = op
+        return a.expand(newdim, (internal, list(crit)), axis=axis)
     if name == "isel":
         _, dim, idx = op
         return a.isel({dim: idx})
